@@ -19,9 +19,10 @@ import (
 
 // strPool: strings without characters that make the error text ambiguous
 // (no double quote, no "; ", no explanation label) and without rule syntax.
-var strPool = []string{"a", "ab", "abc", "abcd", "abcde", "测", "测试", "测试测", "a测b", "x1", "007", "12", "5", "0", "13812345678", "a@b.cd", "1.5", "x y", "A-B_c", "😀a", "éx"}
+var strPool = []string{"a", "ab", "abc", "abcd", "abcde", "测", "测试", "测试测", "a测b", "x1", "007", "12", "5", "0", "13812345678", "a@b.cd", "1.5", "x y", "A-B_c", "😀a", "éx",
+	"100%", "%d%s", "%!v", "a/b", "a\\b", "谬误", "丯", strings.Repeat("x", 63), strings.Repeat("y", 64), strings.Repeat("z", 257)} // (%: the text may end up in a format string; 谬/丯: code points ending in 0x2C / 0x2F)
 
-var alphabetRunes = []rune("abcXYZ019 _-.:/测试验证😀é")
+var alphabetRunes = []rune("abcXYZ019 _-.:/测试验证😀é%谬")
 
 func genString(t *rapid.T, label string, allowEmpty bool) string {
 	switch rapid.IntRange(0, 9).Draw(t, label+"Mode") {
@@ -46,7 +47,8 @@ func genString(t *rapid.T, label string, allowEmpty bool) string {
 	}
 }
 
-var intPool = []int64{1, 2, 3, 4, 5, 7, 10, 100, -1, -2, -5, 127, 128, 255, 256, 65535, 1 << 31, -(1 << 31), math.MaxInt64, math.MinInt64}
+var intPool = []int64{1, 2, 3, 4, 5, 7, 10, 100, -1, -2, -5, 127, 128, 255, 256, 65535, 1 << 31, -(1 << 31), math.MaxInt64, math.MinInt64,
+	1 << 53, 1<<53 + 1, math.MaxInt64 - 1, math.MinInt64 + 1, 1<<62 + 1, 1 << 62} // neighbours above 2^53 differ by less than the float64 spacing
 
 func clampInt(kind string, v int64) int64 {
 	bits := map[string]int{"int8": 8, "int16": 16, "int32": 32}[kind]
@@ -110,7 +112,7 @@ func genScalar(t *rapid.T, kind, label string, zeroOK bool) desc.V {
 		if rapid.IntRange(0, 3).Draw(t, label+"Small") > 0 {
 			v = uint64(rapid.IntRange(1, 9).Draw(t, label))
 		} else {
-			v = rapid.SampledFrom([]uint64{1, 2, 127, 128, 255, 256, 65535, 65536, 1 << 31, 1 << 32, math.MaxUint64}).Draw(t, label)
+			v = rapid.SampledFrom([]uint64{1, 2, 127, 128, 255, 256, 65535, 65536, 1 << 31, 1 << 32, math.MaxUint64, math.MaxUint64 - 1, 1 << 53, 1<<53 + 1, 1 << 63, 1<<63 + 1}).Draw(t, label)
 		}
 		return desc.V{U: clampUint(kind, v)}
 	case kind == "float32" || kind == "float64":
@@ -325,6 +327,22 @@ func genRuleItems(t *rapid.T, kind string, v desc.V, mg *msgGen, maxRules int, w
 	return strings.Join(items, ",")
 }
 
+// mapKeyName is the i-th string key of generated maps.  mapKeyStyle is set once
+// per case by the generators that care (0 = short keys).
+var mapKeyStyle int
+
+func mapKeyName(i int) string {
+	switch mapKeyStyle {
+	case 1: // long keys that share their first 50 bytes
+		return strings.Repeat("k", 50) + fmt.Sprintf("%d", i)
+	case 2: // dotted keys (paths are dot-separated)
+		return fmt.Sprintf("a.b.c.d.e.f.g.h.i.j.k.%d", i)
+	case 3: // keys with brackets, blanks, percent
+		return fmt.Sprintf("k[%d] 100%%", i)
+	}
+	return fmt.Sprintf("k%d", i)
+}
+
 var fieldNames = []string{"A", "B", "C", "D", "E", "F", "G", "H", "I", "J"}
 
 // structGen synthesises struct types (via descriptors) together with values.
@@ -418,6 +436,9 @@ func (g *structGen) sliceField(name string) (desc.F, desc.V) {
 
 // genStruct draws a struct type and a value for it.
 func (g *structGen) genStruct(depth int) (desc.T, desc.V) {
+	if depth == 0 {
+		mapKeyStyle = rapid.SampledFrom([]int{0, 0, 0, 0, 1, 2, 3}).Draw(g.t, "mapKeyStyle")
+	}
 	n := rapid.IntRange(0, g.maxField).Draw(g.t, "nFields")
 	ty := desc.T{K: "struct"}
 	val := desc.V{}
@@ -542,7 +563,7 @@ func (g *structGen) containerField(name string, depth int) (desc.F, desc.V) {
 			}
 			v.E = append(v.E, e)
 			if shape == "mapptrptr" {
-				v.K = append(v.K, desc.Str(fmt.Sprintf("k%d", i)))
+				v.K = append(v.K, desc.Str(mapKeyName(i)))
 			}
 		}
 	default: // maps
@@ -561,7 +582,7 @@ func (g *structGen) containerField(name string, depth int) (desc.F, desc.V) {
 			if shape == "mapint" {
 				v.K = append(v.K, desc.V{I: int64(i*7 + 1)})
 			} else {
-				v.K = append(v.K, desc.Str(fmt.Sprintf("k%d", i)))
+				v.K = append(v.K, desc.Str(mapKeyName(i)))
 			}
 			if shape == "mapptr" {
 				if rapid.IntRange(0, 3).Draw(g.t, "nilEntry") == 0 {
@@ -623,7 +644,7 @@ func (g *structGen) genValueFor(ty desc.T, depth int) desc.V {
 		v := desc.V{Nil: n < 0}
 		for i := 0; i < n; i++ {
 			if ty.Key.K == "string" {
-				v.K = append(v.K, desc.Str(fmt.Sprintf("k%d", i)))
+				v.K = append(v.K, desc.Str(mapKeyName(i)))
 			} else {
 				v.K = append(v.K, desc.V{I: int64(i*7 + 1)})
 			}
@@ -687,7 +708,7 @@ func genValueRT(t *rapid.T, rt reflect.Type, depth, maxDepth int) desc.V {
 		v := desc.V{Nil: n < 0}
 		for i := 0; i < n; i++ {
 			if rt.Key().Kind() == reflect.String {
-				v.K = append(v.K, desc.Str(fmt.Sprintf("k%d", i)))
+				v.K = append(v.K, desc.Str(mapKeyName(i)))
 			} else {
 				v.K = append(v.K, desc.V{I: int64(i*7 + 1)})
 			}
